@@ -54,7 +54,32 @@ def exhaustive(tier):
                     yield {"cls": "hh", "w": 1, "d": 1, "hash": "default", "pool": ["s:a", "s:b", "b:00"], "hitters": h,
                            "threshold": 1, "ops": [list(o) for o in combo]}
 
-    return [("width1_histories_len<=%d" % L, gen)]
+    LW = 5 if tier == "quick" else 6
+
+    def gen_wide():
+        # HeavyHitters over a sketch wide enough that the four keys do not collide (estimates = true counts): which key is evicted,
+        # which one is refused and what the eviction floor is depend on the ORDER of equal and unequal counts only - every
+        # history of up to LW additions of 1, 2 or 3 over four keys (up to renaming), with two or three slots
+        alpha = [["add", k, n] for k in range(4) for n in (1, 2, 3)]
+        for n in range(3, LW + 1):
+            for combo in itertools.product(alpha, repeat=n):
+                if len({c[1] for c in combo}) < 3:
+                    continue  # fewer than three distinct keys: no eviction can happen with two slots
+                seen = -1
+                for c in combo:  # keys in order of first use (the histories are symmetric under renaming the keys)
+                    if c[1] > seen + 1:
+                        seen = None
+                        break
+                    seen = max(seen, c[1])
+                if seen is None:
+                    continue
+                for h in (2, 3):
+                    if h == 3 and seen < 3:
+                        continue  # three slots: only histories that use all four keys
+                    yield {"cls": "hh", "w": 64, "d": 2, "hash": "default", "pool": ["s:a", "s:b", "b:00", "s:dd"], "hitters": h,
+                           "threshold": 1, "ops": [list(o) for o in combo]}
+
+    return [("width1_histories_len<=%d" % L, gen), ("heavy_hitters_collision_free_histories_len<=%d" % LW, gen_wide)]
 
 
 def run_case(case, ctx):
